@@ -101,3 +101,37 @@ def explore(res, tag, subjects, phases=None, kind_to_key=None, derive_dep=None, 
     if not keep:
         shutil.rmtree(os.path.join(WORK, tag), ignore_errors=True)
     return merged
+
+
+def compare_transcripts(res, merged, subjects, group_of, kind_label, items=None):
+    """Differential oracle without a hand-written expectation: within one group (same enum
+    declaration, or same value set for C18) every item that two subjects both enable must have the
+    same transcript hash. Returns the number of (group, item) pairs compared."""
+    groups = {}
+    for s in subjects:
+        t = merged["stats"].get(s.sid)
+        if not t or t.get("violations"):
+            continue
+        g = group_of(s)
+        if g is None:
+            continue
+        for item, h in t.get("hashes", {}).items():
+            if items is not None and item not in items:
+                continue
+            groups.setdefault((g, item), {}).setdefault(h, []).append(s)
+    compared = 0
+    for (g, item), hs in sorted(groups.items(), key=lambda kv: str(kv[0])):
+        if sum(len(v) for v in hs.values()) > 1:
+            compared += 1
+        if len(hs) > 1:
+            reps = [v[0] for v in hs.values()]
+            res.violation({"kind": kind_label, "item": item,
+                           "configs": [r.cfg.describe() for r in reps][:3],
+                           "reprs": [r.decl.repr for r in reps][:3],
+                           "variants": [[x.ident, x.value, x.rename] for x in reps[0].decl.variants][:16]},
+                          {"subjects": [r.describe() for r in reps][:4],
+                           "note": "the same item gives different transcripts in these configurations/declarations"},
+                          {"repro.rs": "// A: \n" + reps[0].standalone() + "\n/* B:\n" + reps[1].standalone() + "*/\nfn main() {}\n"})
+            res.outcome("transcript-divergence")
+    res.extra["transcript_pairs_compared"] = res.extra.get("transcript_pairs_compared", 0) + compared
+    return compared
